@@ -304,10 +304,10 @@ pub fn render(st: &Stmt) -> (String, BTreeMap<String, String>) {
                 let e = expect.map(|v| format!(" EXPECT STATE \"{}\"", status_name('A', v))).unwrap_or_default();
                 format!("SUPERSEDE ASSERTION {} BY {}{e}", r(t, &mut params), r(by, &mut params))
             }
-            Clause::Co { t, by } => format!("CORRECT EVIDENCE {} BY {}{}", r(t, &mut params), r(by, &mut params), std::env::var("VH_CO_EXPECT").map(|v| format!(" EXPECT STATE \"{v}\"")).unwrap_or_default()),
+            Clause::Co { t, by } => format!("CORRECT EVIDENCE {} BY {}", r(t, &mut params), r(by, &mut params)),
             Clause::Tr { t, to, expect } => {
                 let e = expect.map(|v| format!(" EXPECT STATE \"{}\"", status_name('X', v))).unwrap_or_default();
-                format!("TRANSITION ACTIVITY {} TO \"{}\"{}{e}", r(t, &mut params), status_name('X', *to), std::env::var("VH_TR_STRUCT").map(|_| " SET STRUCTURAL { (\"outputs\", :rc1) }".to_string()).unwrap_or_default())
+                format!("TRANSITION ACTIVITY {} TO \"{}\"{e}", r(t, &mut params), status_name('X', *to))
             }
             Clause::Sr { t, v, expect } => {
                 let e = expect.map(|v| format!(" EXPECT VERSION {v}")).unwrap_or_default();
